@@ -26,7 +26,8 @@ RULE = ('histories of received vectors (newer, older, incomparable, unknown node
 C = lambda s: rc.comp(8, s)   # noqa
 BASE_PREFIX = [C(b'sync'), C(b'grp')]
 SELF = [C(b'n'), C(b'self')]
-NODES = [[C(b'n'), C(b'a')], [C(b'n'), C(b'b')], [C(b'n'), C(b'c')], [C(b'n'), C(b'd')]]
+# (peers whose names extend the own node name, or are a prefix of it, are different nodes)
+NODES = [[C(b'n'), C(b'a')], [C(b'n'), C(b'self'), C(b'phone')], [C(b'n')], [C(b'n'), C(b'd')]]
 
 
 def nid(name):
